@@ -51,22 +51,23 @@ type Engine struct {
 	getCount map[string]int
 	stCount  int
 
-	disks      map[string]*Disk
-	stores     map[string]*simStore
-	listeners  map[string]http.Handler
-	netMode    map[string]string
-	evicted    []string // eviction notifications (shard|key) since last drain
-	violations []Violation
-	online     []func(e *Engine) // online invariants run after every step
-	onStep     func(e *Engine)
-	stuck      bool
-	lastRun    *Task
-	live       []*Task
-	seenTasks  int
-	doneUpTo   int
-	evLog      []string
-	inlineBuf  []*StoreRec
-	closedUse  int
+	disks       map[string]*Disk
+	stores      map[string]*simStore
+	listeners   map[string]http.Handler
+	netMode     map[string]string
+	evicted     []string // eviction notifications (shard|key) since last drain
+	violations  []Violation
+	online      []func(e *Engine) // online invariants run after every step
+	onStep      func(e *Engine)
+	stuck       bool
+	lastRun     *Task
+	live        []*Task
+	seenTasks   int
+	doneUpTo    int
+	evLog       []string
+	inlineBuf   []*StoreRec
+	closedUse   int
+	closedAddrs []string
 }
 
 var curEngine atomic.Pointer[Engine]
@@ -230,7 +231,15 @@ func (e *Engine) listen(addr string, h http.Handler) error {
 func (e *Engine) closeListener(addr string, h http.Handler) {
 	if cur, ok := e.listeners[addr]; ok && cur == h {
 		delete(e.listeners, addr)
+		e.closedAddrs = append(e.closedAddrs, addr)
 	}
+}
+
+//go:norace
+func (e *Engine) drainClosedAddrs() []string {
+	c := e.closedAddrs
+	e.closedAddrs = nil
+	return c
 }
 
 //go:norace
@@ -604,6 +613,9 @@ func (e *Engine) observe() {
 		}
 	}
 	e.flushInlineStores()
+	for _, a := range e.drainClosedAddrs() {
+		e.ev("listener-closed", "", a)
+	}
 	if e.closedUse > 0 {
 		e.hist.Probes["store-used-after-close"] += e.closedUse
 		e.closedUse = 0
@@ -730,7 +742,16 @@ func (e *Engine) enabled() []action {
 			}
 			acts = append(acts, a)
 		case tsStore:
-			acts = append(acts, action{name: "st:" + t.Name, weight: 1, kind: 2, task: t})
+			a := action{name: "st:" + t.Name, weight: 1, kind: 2, task: t}
+			if e.plan.WithholdStore {
+				withheldOnly = append(withheldOnly, a)
+			} else {
+				acts = append(acts, a)
+			}
+		}
+		if !t.cancelled && t.getCancel() != nil && t.getState() != tsNew {
+			// the client of this request may disconnect now
+			acts = append(acts, action{name: "cancel:" + t.Name, weight: 0.15, kind: 5, task: t})
 		}
 	}
 	if e.nextOp < len(e.plan.Ops) {
@@ -853,6 +874,18 @@ func (e *Engine) apply(a *action) {
 	case 4:
 		e.ev("clock", "", fmt.Sprintf("+%dms", a.ms))
 		time.Sleep(time.Duration(a.ms) * time.Millisecond)
+	case 5:
+		t := a.task
+		t.cancelled = true
+		if t.rec != nil {
+			t.rec.Cancelled = true
+		}
+		e.hist.FaultFired["client-disconnect"]++
+		if t.blocked {
+			e.hist.FaultFired["client-disconnect-while-parked-behind-fetch"]++
+		}
+		e.ev("client-gone", t.Name, "")
+		t.getCancel()()
 	}
 	// re-draw priorities now and then (policy "prio" / "freeze")
 	if e.replay == nil {
